@@ -18,18 +18,71 @@ from .tableops import FuncView, TOp
 
 
 # ----------------------------------------------------------------------------- helpers
-def _membership_tests(v: FuncView, table: str):
-    """If-tests of the form `k in T` / `k not in T` (possibly inside and/or, not): (test node, key expr, positive?)."""
+class _Mem:
+    """A membership atom: `k in T`, `k not in T`, or `x is None` / `x is not None` with x = T.get(k)."""
+
+    def __init__(self, ifnode, atom, key, holds_in_when_true: bool):
+        self.ifnode = ifnode
+        self.atom = atom
+        self.key = key
+        self.in_when_true = holds_in_when_true  # the atom being True means "k in T"
+
+    def absent_branch(self):
+        """label of the out-edge of the test on which `k not in T` is known"""
+        return _implied_branch(self.ifnode.test, self.atom, not self.in_when_true)
+
+    def present_branch(self):
+        return _implied_branch(self.ifnode.test, self.atom, self.in_when_true)
+
+
+def _membership_atoms(v: FuncView, table: str):
     out = []
     for n in walk_no_nested(v.fi.node):
-        if isinstance(n, (ast.If, ast.While)):
-            for cmp_, pos in _atoms(n.test, True):
-                if isinstance(cmp_, ast.Compare) and len(cmp_.ops) == 1 and isinstance(cmp_.ops[0], (ast.In, ast.NotIn)):
-                    t = v.table_of(cmp_.comparators[0])
-                    if t is not None and t[1] == table and not t[2]:
-                        positive = isinstance(cmp_.ops[0], ast.In)
-                        out.append((n, cmp_.left, positive if pos else not positive, cmp_))
+        if not isinstance(n, (ast.If, ast.While)):
+            continue
+        for a, _ in _atoms(n.test, True):
+            if isinstance(a, ast.Compare) and len(a.ops) == 1:
+                op, l, r = a.ops[0], a.left, a.comparators[0]
+                if isinstance(op, (ast.In, ast.NotIn)):
+                    c = [t for t in v.tables_of(r) if t[1] == table and not t[2]]
+                    if c:
+                        out.append(_Mem(n, a, l, isinstance(op, ast.In)))
+                elif isinstance(op, (ast.Is, ast.IsNot)) and isinstance(r, ast.Constant) and r.value is None and isinstance(l, ast.Name):
+                    # x = T.get(k) ... if x is None:
+                    for d in walk_no_nested(v.fi.node):
+                        if isinstance(d, ast.Assign) and len(d.targets) == 1 and isinstance(d.targets[0], ast.Name) and d.targets[0].id == l.id and isinstance(d.value, ast.Call) and isinstance(d.value.func, ast.Attribute) and d.value.func.attr == "get" and len(d.value.args) == 1:
+                            c = [t for t in v.tables_of(d.value.func.value) if t[1] == table and not t[2]]
+                            if c and v.cfg.dominates(_cfgid(v, d), v.cfg.by_ast[id(n.test)]):
+                                out.append(_Mem(n, a, d.value.args[0], isinstance(op, ast.IsNot)))
     return out
+
+
+def _membership_tests(v: FuncView, table: str):
+    """(if node, key expr, positive?, atom) - kept for the callers that only need `k in T` / `k not in T` atoms"""
+    return [(m.ifnode, m.key, m.in_when_true, m.atom) for m in _membership_atoms(v, table) if isinstance(m.atom.ops[0], (ast.In, ast.NotIn))]
+
+
+def _fresh_guard(v: FuncView, table: str, key, sid: int):
+    """the membership test that proves `key not in table` at CFG node sid, or None"""
+    for m in _membership_atoms(v, table):
+        if key is not None and not _same_expr(m.key, key):
+            continue
+        lab = m.absent_branch()
+        if lab is None:
+            continue
+        tid = v.cfg.by_ast[id(m.ifnode.test)]
+        if v.cfg.branch_dominated(tid, lab, sid):
+            return (tid, lab, m.ifnode)
+    return None
+
+
+def _absent(res: Result, v: FuncView, rule, stmt, detail, why, where):
+    """An operation that must exist was not found: definite only when the function's effects are fully attributed."""
+    _, opaque = v.effects()
+    if opaque:
+        res.unknown(rule, v.fi.short, stmt, detail, "not found, but the function mutates containers the analysis cannot attribute to a table", where)
+    else:
+        res.violation(rule, v.fi.short, stmt, detail, why, where)
 
 
 def _atoms(test, pos):
@@ -108,29 +161,19 @@ def check_add_edge(ctx, res: Result, cls: str):
     f = v.fi.short
     stores = _writes(v, "_edge_list", ("store",))
     if not stores:
+        via = [o for o in _writes(v, "_edge_list", ("store",), with_calls=True) if o.via]
+        if via:
+            res.unknown("P-FRESH", f, norm(via[0].node), "_edge_list", f"record creation is delegated to {via[0].via}; the joint-update rules are not applied across the call", _where(v, via[0].node))
+            return
         raise AnalysisError(f"{f}: no store into _edge_list found (anchor of P-FRESH vanished)")
     id_tables = T.EDGE_ID_TABLES
     adj_tables = T.ADJ_TABLES[cls]
-    tests = _membership_tests(v, "_edge_list")
 
-    fresh_nodes = []  # (test cfg id, label) pairs that delimit the fresh path
+    fresh_nodes = []  # (test cfg id, label, if node) triples that delimit the fresh path
     for st in stores:
         sid = _cfgid(v, st.at)
         # ---- P-FRESH: the record-creating store is dominated by "key not in _edge_list"
-        guard = None
-        for ifn, keyexpr, positive, atom in tests:
-            if not _same_expr(keyexpr, st.key):
-                continue
-            lab = _implied_branch(ifn.test, atom, True)
-            # atom is the Compare; it is `k in T` (In) or `k not in T` (NotIn): we need "k not in T" to hold
-            is_in = isinstance(atom.ops[0], ast.In)
-            lab = _implied_branch(ifn.test, atom, not is_in)
-            if lab is None:
-                continue
-            tid = v.cfg.by_ast[id(ifn.test)]
-            if v.cfg.branch_dominated(tid, lab, sid):
-                guard = (tid, lab, ifn)
-                break
+        guard = _fresh_guard(v, "_edge_list", st.key, sid)
         res.check(
             guard is not None,
             "P-FRESH",
@@ -148,30 +191,19 @@ def check_add_edge(ctx, res: Result, cls: str):
         for tab in id_tables:
             w = [o for o in _writes(v, tab, ("store",), with_calls=True)]
             ids = {v.lifted(o) for o in w}
-            okp = bool(w) and v.passes_through(sid, ids)
-            res.check(
-                okp,
-                "P-FRESH",
-                f,
-                norm(st.node),
-                tab,
-                f"creating an edge record does not write {tab} on every path (joint update of index / reverse index / weights / metadata)",
-                _where(v, st.node),
-            )
+            if not w:
+                _absent(res, v, "P-FRESH", norm(st.node), tab, f"creating an edge record never writes {tab} (joint update of index / reverse index / weights / metadata)", _where(v, st.node))
+            else:
+                res.check(v.passes_through(sid, ids), "P-FRESH", f, norm(st.node), tab, f"creating an edge record does not write {tab} on every path (joint update of index / reverse index / weights / metadata)", _where(v, st.node))
         # ---- P-ID: the id comes from the monotone counter, which is advanced on the same path
         _check_id_source(v, res, st, sid)
         # ---- P-ADJ1: adjacency appends only on the fresh path, one loop per adjacency table
         for tab in adj_tables:
-            apps = [o for o in v.ops() if o.table == tab and o.op == "append" and o.elem_level]
-            res.check(
-                bool(apps),
-                "P-ADJ1",
-                f,
-                f"{tab}[node].append(id)",
-                tab,
-                f"add_edge never records the new edge in {tab}",
-                _where(v, st.node),
-            )
+            apps = [o for o in v.ops(with_calls=True) if o.table == tab and o.op == "append" and o.elem_level]
+            if not apps:
+                _absent(res, v, "P-ADJ1", f"{tab}[node].append(id)", tab, f"add_edge never records the new edge in {tab}", _where(v, st.node))
+                continue
+            res.ok("P-ADJ1", f, f"{tab}[node].append(id)", tab, _where(v, st.node))
             for a in apps:
                 aid = _cfgid(v, a.at)
                 dom = v.cfg.branch_dominated(tid, lab, aid)
@@ -184,52 +216,61 @@ def check_add_edge(ctx, res: Result, cls: str):
                     "incidence entry appended outside the `edge is new` branch: re-inserting an existing hyperedge lists it twice for its nodes",
                     _where(v, a.node),
                 )
+                if a.via or a.may:
+                    continue  # loop shape / value are checked where the append is written down
                 loop = v.enclosing(a.at, (ast.For,))
                 if loop is None:
-                    res.violation("P-ADJ1", f, norm(a.node), tab + ":loop", "incidence append is not inside a loop over the hyperedge's nodes", _where(v, a.node))
+                    res.unknown("P-ADJ1", f, norm(a.node), tab + ":loop", "incidence append is not inside a loop over the hyperedge's nodes", _where(v, a.node))
                 else:
                     ik = v.kind(loop.iter)
                     good = isinstance(ik, (Seq, Lst)) and isinstance(ik.elem, Atom) and ik.elem.name == "NODE"
                     res.add("P-ADJ1", f, norm(loop.iter), tab + ":loop", "ok" if good else "unknown", "" if good else f"loop iterates over {ik!r}", _where(v, loop))
                     vk = v.kind(a.value) if a.value is not None else None
-                    res.add("P-ADJ1", f, norm(a.node), tab + ":value", "ok" if vk == EID else ("unknown" if isinstance(vk, _Top) else "violation"), "" if vk == EID else f"appended value has kind {vk!r}, not an edge id", _where(v, a.node))
-            # every path through the creating store must perform the appends for this table
+                    bad = vk is not None and not isinstance(vk, (_Top, Union)) and vk != EID
+                    res.add("P-ADJ1", f, norm(a.node), tab + ":value", "ok" if vk == EID else ("violation" if bad else "unknown"), "" if not bad else f"appended value has kind {vk!r}, not an edge id", _where(v, a.node))
             ids = {v.lifted(o) for o in apps}
-            if apps:
-                res.check(
-                    v.passes_through(sid, ids),
-                    "P-ADJ1",
-                    f,
-                    norm(st.node),
-                    tab + ":always",
-                    f"a path creates the edge record without recording it in {tab}",
-                    _where(v, st.node),
-                )
+            res.check(
+                v.passes_through(sid, ids),
+                "P-ADJ1",
+                f,
+                norm(st.node),
+                tab + ":always",
+                f"a path creates the edge record without recording it in {tab}",
+                _where(v, st.node),
+            )
+    if not fresh_nodes:
+        return
     # ---- P-ACCUM: weight writes outside the fresh branch are `+= weight` under the weighted flag
     wparam = "weight"
-    for o in [o for o in v.ops() if o.table == "_weights" and o.op in ("store", "aug") and not o.elem_level]:
+    outside = []
+    for o in [o for o in v.ops() if o.table == "_weights" and o.op in ("store", "aug") and not o.elem_level and not o.may]:
         oid = _cfgid(v, o.at)
         in_fresh = any(v.cfg.branch_dominated(tid, lab, oid) for tid, lab, _ in fresh_nodes)
         if in_fresh:
             res.check(o.op == "store", "P-ACCUM", f, norm(o.node), "fresh", "the weight of a new record is accumulated instead of set", _where(v, o.node))
             continue
+        outside.append(o)
         is_acc = o.op == "aug" and isinstance(o.node.op, ast.Add) and isinstance(o.value, ast.Name) and o.value.id == wparam
         if not is_acc and o.op == "store":
-            # T[id] = T[id] + weight
             val = o.value
             is_acc = (
                 isinstance(val, ast.BinOp)
                 and isinstance(val.op, ast.Add)
                 and any(isinstance(x, ast.Name) and x.id == wparam for x in (val.left, val.right))
-                and any(isinstance(x, ast.Subscript) and (v.table_of(x.value) or (None, None))[1] == "_weights" for x in (val.left, val.right))
+                and any(isinstance(x, ast.Subscript) and any(t[1] == "_weights" for t in v.tables_of(x.value)) for x in (val.left, val.right))
             )
         res.check(is_acc, "P-ACCUM", f, norm(o.node), "existing", "re-inserting an existing hyperedge must add the new weight to the stored one (`+= weight`)", _where(v, o.node))
         res.check(_under_flag(v, o.at, "_weighted", True), "P-ACCUM", f, norm(o.node), "weighted-only", "the weight of an existing record is changed although the hypergraph may be unweighted (re-insert must be idempotent)", _where(v, o.node))
-    if fresh_nodes:
-        accs = [o for o in v.ops() if o.table == "_weights" and o.op in ("aug", "store") and not o.elem_level and not any(v.cfg.branch_dominated(t, l, _cfgid(v, o.at)) for t, l, _ in fresh_nodes)]
-        res.check(bool(accs), "P-ACCUM", f, "self._weights[id] += weight", "exists", "no accumulation of the weight when an existing hyperedge is re-inserted", _where(v, v.fi.node))
+    if not outside:
+        via = [o for o in v.ops(with_calls=True) if o.table == "_weights" and o.op in ("store", "aug") and o.via]
+        if via:
+            res.unknown("P-ACCUM", f, norm(via[0].node), "exists", f"weight accumulation may happen inside {via[0].via}", _where(v, via[0].node))
+        else:
+            _absent(res, v, "P-ACCUM", "self._weights[id] += weight", "exists", "no accumulation of the weight when an existing hyperedge is re-inserted", _where(v, v.fi.node))
+    else:
+        res.ok("P-ACCUM", f, "self._weights[id] += weight", "exists", _where(v, v.fi.node))
     # ---- metadata: stores outside the fresh branch must be conditional on metadata having been supplied
-    for o in [o for o in v.ops() if o.table == "_edge_metadata" and o.op == "store" and not o.elem_level]:
+    for o in [o for o in v.ops() if o.table == "_edge_metadata" and o.op == "store" and not o.elem_level and not o.may]:
         oid = _cfgid(v, o.at)
         if any(v.cfg.branch_dominated(tid, lab, oid) for tid, lab, _ in fresh_nodes):
             continue
@@ -252,7 +293,21 @@ def _check_id_source(v: FuncView, res: Result, st: TOp, sid: int):
         _where(v, st.node),
     )
     incs = [o for o in v.ops() if o.table == "_next_edge_id" and o.op == "setattr"]
-    good = [o for o in incs if isinstance(o.node, ast.AugAssign) and isinstance(o.node.op, ast.Add) and isinstance(o.node.value, ast.Constant) and isinstance(o.node.value.value, int) and o.node.value.value > 0]
+
+    def advances(o):
+        n = o.node
+        if isinstance(n, ast.AugAssign):
+            return isinstance(n.op, ast.Add) and isinstance(n.value, ast.Constant) and isinstance(n.value.value, int) and n.value.value > 0
+        if isinstance(n, ast.Assign) and isinstance(n.value, ast.BinOp) and isinstance(n.value.op, ast.Add):
+            # self._next_edge_id = <the value just read from the counter> + c
+            for a, b in ((n.value.left, n.value.right), (n.value.right, n.value.left)):
+                if isinstance(b, ast.Constant) and isinstance(b.value, int) and b.value > 0:
+                    srcx = _resolve_alias(v, a, _cfgid(v, o.at)) if isinstance(a, ast.Name) else a
+                    if srcx is not None and is_self_attr(srcx, "_next_edge_id"):
+                        return True
+        return False
+
+    good = [o for o in incs if advances(o)]
     for o in incs:
         res.check(o in good, "P-ID", f, norm(o.node), "advance", "the id counter is assigned instead of advanced by a positive constant", _where(v, o.node))
     ids = {_cfgid(v, o.at) for o in good}
@@ -353,42 +408,38 @@ def check_record_creation_guarded(ctx, res: Result, cls: str, skip=("add_edge", 
 def check_remove_edge(ctx, res: Result, cls: str):
     v = ctx.view(f"{cls}.remove_edge")
     f = v.fi.short
-    dels = [o for o in v.ops() if o.table == "_edge_list" and o.op == "del" and not o.elem_level]
+    dels = [o for o in v.ops(with_calls=True) if o.table == "_edge_list" and o.op == "del" and not o.elem_level]
     if not dels:
         raise AnalysisError(f"{f}: no deletion from _edge_list found (anchor of P-DEL vanished)")
     for d in dels:
         did = _cfgid(v, d.at)
         for tab in T.EDGE_ID_TABLES:
-            w = [o for o in v.ops() if o.table == tab and o.op == "del" and not o.elem_level]
-            ids = {_cfgid(v, o.at) for o in w}
-            res.check(
-                bool(w) and v.passes_through(did, ids),
-                "P-DEL",
-                f,
-                norm(d.node),
-                tab,
-                f"removing a hyperedge does not delete its entry from {tab} on every path (stale weight / metadata / reverse index)",
-                _where(v, d.node),
-            )
+            w = [o for o in v.ops(with_calls=True) if o.table == tab and o.op == "del" and not o.elem_level]
+            ids = {v.must_id(o) for o in w}
+            if not w:
+                _absent(res, v, "P-DEL", norm(d.node), tab, f"removing a hyperedge never deletes its entry from {tab} (stale weight / metadata / reverse index)", _where(v, d.node))
+            else:
+                res.check(v.passes_through(did, ids), "P-DEL", f, norm(d.node), tab, f"removing a hyperedge does not delete its entry from {tab} on every path (stale weight / metadata / reverse index)", _where(v, d.node))
             for o in w:
-                kk = v.kind(o.key) if o.key is not None else None
-                res.add("P-DEL", f, norm(o.node), tab + ":key", "ok" if kk == EID else ("unknown" if kk is None or isinstance(kk, _Top) else "violation"), "" if kk == EID else f"deletion key has kind {kk!r}", _where(v, o.node))
+                if o.via or o.may or o.key is None:
+                    continue
+                kk = v.kind(o.key)
+                bad = not isinstance(kk, (_Top, Union)) and kk != EID
+                res.add("P-DEL", f, norm(o.node), tab + ":key", "ok" if kk == EID else ("violation" if bad else "unknown"), "" if not bad else f"deletion key has kind {kk!r}", _where(v, o.node))
         for tab in T.ADJ_TABLES[cls]:
-            rm = [o for o in v.ops() if o.table == tab and o.op == "remove" and o.elem_level]
+            rm = [o for o in v.ops(with_calls=True) if o.table == tab and o.op == "remove" and o.elem_level]
             ids = {v.lifted(o) for o in rm}
-            res.check(
-                bool(rm) and v.passes_through(did, ids),
-                "P-DEL",
-                f,
-                norm(d.node),
-                tab,
-                f"removing a hyperedge does not remove its id from {tab} of its nodes on every path (stale incidence)",
-                _where(v, d.node),
-            )
+            if not rm:
+                _absent(res, v, "P-DEL", norm(d.node), tab, f"removing a hyperedge never removes its id from {tab} of its nodes (stale incidence)", _where(v, d.node))
+            else:
+                res.check(v.passes_through(did, ids), "P-DEL", f, norm(d.node), tab, f"removing a hyperedge does not remove its id from {tab} of its nodes on every path (stale incidence)", _where(v, d.node))
             for o in rm:
+                if o.via or o.may:
+                    continue
                 loop = v.enclosing(o.at, (ast.For,))
-                res.check(loop is not None, "P-DEL", f, norm(o.node), tab + ":loop", "incidence removal is not inside a loop over the hyperedge's nodes", _where(v, o.node))
-                if loop is not None:
+                if loop is None:
+                    res.unknown("P-DEL", f, norm(o.node), tab + ":loop", "incidence removal is not inside a loop over the hyperedge's nodes", _where(v, o.node))
+                else:
                     ik = v.kind(loop.iter)
                     good = isinstance(ik, (Seq, Lst)) and isinstance(ik.elem, Atom) and ik.elem.name == "NODE"
                     res.add("P-DEL", f, norm(loop.iter), tab + ":iter", "ok" if good else "unknown", "" if good else f"loop iterates over {ik!r}", _where(v, loop))
@@ -402,19 +453,21 @@ def check_add_node(ctx, res: Result, cls: str):
     # the "node is new" guard: `node not in <some node table>`
     guards = []
     for tab in node_tables:
-        for ifn, keyexpr, positive, atom in _membership_tests(v, tab):
-            is_in = isinstance(atom.ops[0], ast.In)
-            lab = _implied_branch(ifn.test, atom, not is_in)
+        for m in _membership_atoms(v, tab):
+            lab = m.absent_branch()
             if lab:
-                guards.append((v.cfg.by_ast[id(ifn.test)], lab, ifn))
+                guards.append((v.cfg.by_ast[id(m.ifnode.test)], lab, m.ifnode))
     if not guards:
         raise AnalysisError(f"{f}: no `node not in <node table>` guard found (anchor of P-NODE vanished)")
     for tab in node_tables:
-        w = [o for o in _writes(v, tab, ("store",))]
+        w = [o for o in v.ops(with_calls=True) if o.table == tab and o.op == "store" and not o.elem_level]
         in_guard = [o for o in w if any(v.cfg.branch_dominated(t, l, _cfgid(v, o.at)) for t, l, _ in guards)]
-        res.check(bool(in_guard), "P-NODE", f, f"{tab}[node] = ...", tab + ":init", f"a new node gets no entry in {tab}", _where(v, v.fi.node))
+        if not in_guard:
+            _absent(res, v, "P-NODE", f"{tab}[node] = ...", tab + ":init", f"a new node gets no entry in {tab}", _where(v, v.fi.node))
+        else:
+            res.ok("P-NODE", f, f"{tab}[node] = ...", tab + ":init", _where(v, v.fi.node))
         for o in w:
-            if o in in_guard:
+            if o in in_guard or o.via or o.may:
                 continue
             # a store outside the `is new` branch may only fill in EMPTY metadata: `if T[node] == {}`
             ok = tab == "_node_metadata" and _under_empty_test(v, o)
@@ -448,18 +501,27 @@ def check_remove_node(ctx, res: Result, cls: str):
     v = ctx.view(f"{cls}.remove_node")
     f = v.fi.short
     for tab in T.NODE_TABLES[cls]:
-        dels = [o for o in v.ops() if o.table == tab and o.op == "del" and not o.elem_level]
-        ids = {_cfgid(v, o.at) for o in dels}
+        dels = [o for o in v.ops(with_calls=True) if o.table == tab and o.op == "del" and not o.elem_level]
+        ids = {v.must_id(o) for o in dels}
         # every normal path entry -> EXIT deletes the node's entry
-        ok = bool(dels) and not v.cfg.reaches_without(v.cfg.entry, v.cfg.exit, ids)
-        res.check(ok, "P-NODE", f, f"del {tab}[node]", tab + ":remove", f"remove_node leaves the node's entry in {tab} on some path (the node stays visible in listings / hashing)", _where(v, v.fi.node))
+        if not dels:
+            _absent(res, v, "P-NODE", f"del {tab}[node]", tab + ":remove", f"remove_node never deletes the node's entry from {tab} (the node stays visible in listings / hashing)", _where(v, v.fi.node))
+        else:
+            ok = not v.cfg.reaches_without(v.cfg.entry, v.cfg.exit, ids)
+            res.check(ok, "P-NODE", f, f"del {tab}[node]", tab + ":remove", f"remove_node leaves the node's entry in {tab} on some path (the node stays visible in listings / hashing)", _where(v, v.fi.node))
         for o in dels:
+            if o.via or o.may:
+                continue
             kk = v.kind(o.key) if o.key is not None else None
             good = isinstance(kk, Atom) and kk.name == "NODE"
             res.add("P-NODE", f, norm(o.node), tab + ":key", "ok" if good else "unknown", "", _where(v, o.node))
     # incident records go through remove_edge / remove_edges (never by hand-editing one table)
     calls = [n for n in walk_no_nested(v.fi.node) if isinstance(n, ast.Call) and isinstance(n.func, ast.Attribute) and is_self_attr(n.func) and n.func.attr in ("remove_edge", "remove_edges")]
-    res.check(bool(calls), "P-NODE", f, "self.remove_edge(...)", "incident", "remove_node never removes the incident hyperedges through remove_edge", _where(v, v.fi.node))
+    edge_dels = [o for o in v.ops(with_calls=True) if o.table == "_edge_list" and o.op == "del"]
+    if calls or edge_dels:
+        res.ok("P-NODE", f, "incident records are removed", "incident", _where(v, v.fi.node))
+    else:
+        _absent(res, v, "P-NODE", "self.remove_edge(...)", "incident", "remove_node never removes the incident hyperedges", _where(v, v.fi.node))
     # P-SHRINK: id-keyed reads of the record must not follow its removal within the same loop iteration
     readers = []
     for n in walk_no_nested(v.fi.node):
@@ -547,8 +609,11 @@ def check_clear(ctx, res: Result, cls: str, exempt=()):
             continue
         if tab in exempt:
             continue
-        ops = [o for o in v.ops() if o.table == tab and (o.op == "clear" or (o.op == "setattr" and isinstance(o.value, (ast.Dict, ast.Call)))) and not o.elem_level]
-        res.check(bool(ops), "P-CLEAR", f, f"self.{tab}.clear()", tab, f"clear() leaves {tab} populated", _where(v, v.fi.node))
+        ops = [o for o in v.ops(with_calls=True) if o.table == tab and (o.op == "clear" or (o.op == "setattr" and (o.via or isinstance(o.value, (ast.Dict, ast.Call, ast.Set))))) and not o.elem_level]
+        if ops:
+            res.ok("P-CLEAR", f, f"self.{tab}.clear()", tab, _where(v, v.fi.node))
+        else:
+            _absent(res, v, "P-CLEAR", f"self.{tab}.clear()", tab, f"clear() leaves {tab} populated", _where(v, v.fi.node))
 
 
 def check_live_iteration(ctx, res: Result, cls: str):
@@ -645,41 +710,89 @@ def check_neighbors(ctx, res: Result, cls: str):
 
 
 # ----------------------------------------------------------------------------- temporal time validation
+def _time_guards(ctx, v: FuncView, aliases, depth: int = 0):
+    """Raising guards on a time value.  Returns (type_guards, neg_guards, opaque) where a guard is (cfg id, label):
+    an `if <test>: raise` of this function (label "F": the store must sit on the branch where the test failed) or a
+    call of a repo helper that performs such a test on the value it is handed (label None: the call must dominate).
+    `opaque`: the value is handed to something whose checks could not be read."""
+    aliases = set(aliases)
+    for n in walk_no_nested(v.fi.node):
+        if isinstance(n, ast.Assign) and len(n.targets) == 1 and isinstance(n.targets[0], ast.Name) and isinstance(n.value, ast.Name) and n.value.id in aliases:
+            aliases.add(n.targets[0].id)
+    type_guards, neg_guards, opaque = [], [], False
+    for n in walk_no_nested(v.fi.node):
+        if not isinstance(n, ast.If) or not n.body or not all(isinstance(b, ast.Raise) for b in n.body):
+            continue
+        t = n.test
+        tid = v.cfg.by_ast.get(id(t))
+        if tid is None:
+            continue
+        # not isinstance(time, int)
+        if isinstance(t, ast.UnaryOp) and isinstance(t.op, ast.Not) and isinstance(t.operand, ast.Call) and isinstance(t.operand.func, ast.Name) and t.operand.func.id == "isinstance":
+            a = t.operand.args
+            if len(a) == 2 and isinstance(a[0], ast.Name) and a[0].id in aliases and norm(a[1]) in ("int", "(int,)", "numbers.Integral", "(int, np.integer)"):
+                type_guards.append((tid, "F"))
+        if isinstance(t, ast.Compare) and len(t.ops) == 1:
+            l, op, r = t.left, t.ops[0], t.comparators[0]
+            if isinstance(l, ast.Name) and l.id in aliases and isinstance(op, ast.Lt) and isinstance(r, ast.Constant) and r.value == 0:
+                neg_guards.append((tid, "F"))
+            if isinstance(r, ast.Name) and r.id in aliases and isinstance(op, ast.Gt) and isinstance(l, ast.Constant) and l.value == 0:
+                neg_guards.append((tid, "F"))
+            if isinstance(l, ast.Name) and l.id in aliases and isinstance(op, ast.LtE) and isinstance(r, ast.UnaryOp) and isinstance(r.op, ast.USub) and isinstance(r.operand, ast.Constant) and r.operand.value == 1:
+                neg_guards.append((tid, "F"))
+    # helpers that are handed the value
+    for n in walk_no_nested(v.fi.node):
+        if not isinstance(n, ast.Call):
+            continue
+        passed = [(i, x) for i, x in enumerate(n.args) if isinstance(x, ast.Name) and x.id in aliases] + [(kw.arg, kw.value) for kw in n.keywords if kw.arg and isinstance(kw.value, ast.Name) and kw.value.id in aliases]
+        if not passed:
+            continue
+        callees = ctx.callees(v.fi, n)
+        cid = v.cfg_id(n)
+        if not callees or cid is None or depth >= 2:
+            if isinstance(n.func, ast.Name) and n.func.id in ("isinstance", "int", "len", "str", "repr", "print", "tuple", "sorted", "list", "format"):
+                continue
+            if not callees:
+                opaque = True
+            continue
+        for callee in callees:
+            names = [x.arg for x in callee.params]
+            if callee.cls is not None and names and names[0] in ("self", "cls") and isinstance(n.func, ast.Attribute):
+                names = names[1:]
+            for pos, _ in passed:
+                pname = names[pos] if isinstance(pos, int) and pos < len(names) else pos
+                if not isinstance(pname, str):
+                    continue
+                cv = ctx.view(callee)
+                tg, ng, op2 = _time_guards(ctx, cv, {pname}, depth + 1)
+                # the helper's own guard must be unconditional in the helper: its test dominates the helper's exit on "F"
+                if any(not cv.cfg.reaches_without(cv.cfg.entry, cv.cfg.exit, {g}) for g, _ in tg):
+                    type_guards.append((cid, None))
+                if any(not cv.cfg.reaches_without(cv.cfg.entry, cv.cfg.exit, {g}) for g, _ in ng):
+                    neg_guards.append((cid, None))
+                opaque = opaque or op2
+                if any(isinstance(x, ast.Raise) for x in ast.walk(callee.node)) and not (tg or ng):
+                    opaque = True
+    return type_guards, neg_guards, opaque
+
+
 def check_time_validation(ctx, res: Result):
     v = ctx.view("TemporalHypergraph.add_edge")
     f = v.fi.short
     stores = _writes(v, "_edge_list", ("store",))
     if not stores:
         raise AnalysisError(f"{f}: no store into _edge_list")
-    aliases = {"time"}
-    for n in walk_no_nested(v.fi.node):
-        if isinstance(n, ast.Assign) and len(n.targets) == 1 and isinstance(n.targets[0], ast.Name) and isinstance(n.value, ast.Name) and n.value.id in aliases:
-            aliases.add(n.targets[0].id)
-    type_guards, neg_guards = [], []
-    for n in walk_no_nested(v.fi.node):
-        if not isinstance(n, ast.If) or not any(isinstance(b, ast.Raise) for b in n.body):
-            continue
-        if not all(isinstance(b, ast.Raise) for b in n.body):
-            continue
-        t = n.test
-        # not isinstance(time, int)
-        if isinstance(t, ast.UnaryOp) and isinstance(t.op, ast.Not) and isinstance(t.operand, ast.Call) and isinstance(t.operand.func, ast.Name) and t.operand.func.id == "isinstance":
-            a = t.operand.args
-            if len(a) == 2 and isinstance(a[0], ast.Name) and a[0].id in aliases and norm(a[1]) in ("int", "(int,)", "numbers.Integral", "(int, np.integer)"):
-                type_guards.append(n)
-        if isinstance(t, ast.Compare) and len(t.ops) == 1:
-            l, op, r = t.left, t.ops[0], t.comparators[0]
-            if isinstance(l, ast.Name) and l.id in aliases and isinstance(op, ast.Lt) and isinstance(r, ast.Constant) and r.value == 0:
-                neg_guards.append(n)
-            if isinstance(r, ast.Name) and r.id in aliases and isinstance(op, ast.Gt) and isinstance(l, ast.Constant) and l.value == 0:
-                neg_guards.append(n)
-            if isinstance(l, ast.Name) and l.id in aliases and isinstance(op, ast.LtE) and isinstance(r, ast.UnaryOp) and isinstance(r.op, ast.USub) and isinstance(r.operand, ast.Constant) and r.operand.value == 1:
-                neg_guards.append(n)
+    type_guards, neg_guards, opaque = _time_guards(ctx, v, {"time"})
     for st in stores:
         sid = _cfgid(v, st.at)
         for name, gs, why in (("int", type_guards, "a non-integer time is not rejected before the record is created"), ("nonneg", neg_guards, "a negative time is not rejected before the record is created")):
-            ok = any(v.cfg.branch_dominated(v.cfg.by_ast[id(g.test)], "F", sid) for g in gs)
-            res.check(ok, "P-TIMEVAL", f, norm(st.node), name, why, _where(v, st.node))
+            ok = any((v.cfg.branch_dominated(g, lab, sid) if lab else (v.cfg.dominates(g, sid) and g != sid)) for g, lab in gs)
+            if ok:
+                res.ok("P-TIMEVAL", f, norm(st.node), name, _where(v, st.node))
+            elif opaque:
+                res.unknown("P-TIMEVAL", f, norm(st.node), name, "no recognised check of the time value; it is handed to code whose checks could not be read", _where(v, st.node))
+            else:
+                res.violation("P-TIMEVAL", f, norm(st.node), name, why, _where(v, st.node))
     # the time component of the key is the validated value
     for st in stores:
         kk = v.kind(st.key)
